@@ -138,6 +138,77 @@ theorem export_demux (prior : Prior) (args : Args) (o : Opts) (ho : optsOf args 
   refine ⟨?_, quic_frames_by_conn mask H P info o fk C lab hsep, fun keep => framesFrom_ok_quic mask H P info prior args fk _ o ho⟩
   rw [framesFrom_ok_quic mask H P info prior args fk C o ho, tls_frames_by_flow]
 
+/-! ### checking `CaptureSeparated` on a given capture: finitely many prefixes -/
+section Check
+variable {κ τ ο : Type}
+
+theorem everHolds_bounded (M : QuicMachine κ τ ο) (o : Opts) (A : List (QIn κ)) (c : Bytes) (h : EverHolds M o A c) :
+    ∃ n ∈ List.range (A.length + 1), ∃ s ∈ quicRun M o [] (A.take n), c ∈ M.clientCids s.st ++ M.serverCids s.st := by
+  obtain ⟨n, s, hs, hc⟩ := h
+  by_cases hn : n ≤ A.length
+  · exact ⟨n, List.mem_range.mpr (by omega), s, hs, List.mem_append.mpr hc⟩
+  · have : A.take n = A.take A.length := by rw [List.take_length, List.take_of_length_le (by omega)]
+    rw [this] at hs
+    exact ⟨A.length, List.mem_range.mpr (by omega), s, hs, List.mem_append.mpr hc⟩
+
+theorem captureSeparated_of_check (M : QuicMachine κ τ ο) (o : Opts) (A B : List (QIn κ))
+    (ht : ∀ a ∈ A, ∀ b ∈ B, sameFlow a.p b.p = false)
+    (hc : ∀ n ∈ List.range (A.length + 1), ∀ s ∈ quicRun M o [] (A.take n),
+      ∀ c ∈ M.clientCids s.st ++ M.serverCids s.st, c ≠ [] →
+        ∀ b ∈ B, b.h.dcid ≠ c ∧ (b.h = .short → ¬ c <+: b.p.payload.drop 1)) : CaptureSeparated M o A B := by
+  refine ⟨ht, ?_, ?_⟩
+  · intro b hb d v hd hne hev
+    obtain ⟨n, hn, s, hs, hcs⟩ := everHolds_bounded M o A d hev
+    have := (hc n hn s hs d hcs hne b hb).1
+    rw [hd] at this
+    exact this rfl
+  · intro b hb hsh c hne hev hp
+    obtain ⟨n, hn, s, hs, hcs⟩ := everHolds_bounded M o A c hev
+    exact (hc n hn s hs c hcs hne b hb).2 hsh hp
+
+/-- only the connections that occur need to be checked -/
+theorem captureSeparatedN_of_check (M : QuicMachine κ τ ο) (o : Opts) (lab : Pkt → Nat) (V : List (QIn κ))
+    (h : ∀ x ∈ V, CaptureSeparated M o (cls (fun x : QIn κ => lab x.p) (lab x.p) V) (rest (fun x : QIn κ => lab x.p) (lab x.p) V)) :
+    CaptureSeparatedN M o lab V := by
+  intro j
+  by_cases hj : ∃ x ∈ V, lab x.p = j
+  · obtain ⟨x, hx, rfl⟩ := hj
+    exact h x hx
+  · have : cls (fun x : QIn κ => lab x.p) j V = [] := by
+      simp only [cls, List.filter_eq_nil_iff]
+      intro x hx hl
+      exact hj ⟨x, hx, by simpa using hl⟩
+    rw [this]
+    refine ⟨fun a ha _ _ => absurd ha (by simp), ?_, ?_⟩
+    · intro b _ d v _ _ ⟨n, s, hs, _⟩; simp [quicRun] at hs
+    · intro b _ _ c _ ⟨n, s, hs, _⟩; simp [quicRun] at hs
+end Check
+section Check2
+variable {κ τ ο : Type}
+
+/-- the finite check as a Boolean (for `decide`) -/
+def sepCheck (M : QuicMachine κ τ ο) (o : Opts) (A B : List (QIn κ)) : Bool :=
+  (A.all fun a => B.all fun b => !sameFlow a.p b.p) &&
+  (List.range (A.length + 1)).all fun n => (quicRun M o [] (A.take n)).all fun s =>
+    (M.clientCids s.st ++ M.serverCids s.st).all fun c => c.isEmpty ||
+      B.all fun b => (b.h.dcid != c) && (b.h != .short || !(c.isPrefixOf (b.p.payload.drop 1)))
+
+theorem captureSeparated_of_sepCheck (M : QuicMachine κ τ ο) (o : Opts) (A B : List (QIn κ))
+    (h : sepCheck M o A B = true) : CaptureSeparated M o A B := by
+  simp only [sepCheck, Bool.and_eq_true, List.all_eq_true, Bool.not_eq_true', Bool.or_eq_true, bne_iff_ne, ne_eq,
+    List.isEmpty_iff] at h
+  refine captureSeparated_of_check M o A B h.1 ?_
+  intro n hn s hs c hc hne b hb
+  rcases h.2 n hn s hs c hc with h0 | h0
+  · exact absurd h0 hne
+  · obtain ⟨h1, h2⟩ := h0 b hb
+    refine ⟨h1, fun hsh hp => ?_⟩
+    rcases h2 with h2 | h2
+    · exact h2 hsh
+    · rw [← List.isPrefixOf_iff_prefix] at hp
+      rw [hp] at h2; cases h2
+end Check2
+
 section Files
 open TLX.Props.ExportInputs TLX.Props.ExportInputs2 TLX.Ingest
 open TLX.Spec.Containers (Zip)
